@@ -20,8 +20,10 @@ import (
 	"sort"
 	"strings"
 
+	"golang.org/x/net/http/httpguts"
 	"k8s.io/apimachinery/pkg/util/net"
 	"k8s.io/apimachinery/pkg/util/proxy"
+	"k8s.io/apiserver/pkg/authentication/user"
 	"k8s.io/apiserver/pkg/endpoints/request"
 	"k8s.io/client-go/transport"
 	"k8s.io/klog"
@@ -66,6 +68,15 @@ func (rt *dynamicImpersonatingRoundTripper) WrapRequest(req *http.Request) (*htt
 		klog.Infof("    Extra: %s", extraToString(requestor.GetExtra()))
 	}
 
+	// The two callers put the headers on the wire differently: http.Transport
+	// refuses a request with an invalid field value, but the upgrade path
+	// serializes it with http.Request.Write, which silently turns CR and LF
+	// into blanks. The upstream must never be told a user or group that
+	// differs from the one we authenticated, so refuse here for both.
+	if err := validateImpersonationValues(requestor); err != nil {
+		return nil, err
+	}
+
 	req = net.CloneRequest(req)
 	req.Header.Set(transport.ImpersonateUserHeader, requestor.GetName())
 
@@ -79,6 +90,27 @@ func (rt *dynamicImpersonatingRoundTripper) WrapRequest(req *http.Request) (*htt
 	}
 
 	return req, nil
+}
+
+// validateImpersonationValues reports an error if a part of the identity cannot
+// be carried unchanged in an HTTP header field value.
+func validateImpersonationValues(u user.Info) error {
+	if !httpguts.ValidHeaderFieldValue(u.GetName()) {
+		return fmt.Errorf("user name %q can not be sent in an impersonation header", u.GetName())
+	}
+	for _, group := range u.GetGroups() {
+		if !httpguts.ValidHeaderFieldValue(group) {
+			return fmt.Errorf("group %q of user %q can not be sent in an impersonation header", group, u.GetName())
+		}
+	}
+	for k, vv := range u.GetExtra() {
+		for _, v := range vv {
+			if !httpguts.ValidHeaderFieldValue(v) {
+				return fmt.Errorf("extra %s=%q of user %q can not be sent in an impersonation header", k, v, u.GetName())
+			}
+		}
+	}
+	return nil
 }
 
 func (rt *dynamicImpersonatingRoundTripper) RoundTrip(req *http.Request) (*http.Response, error) {
